@@ -7,6 +7,7 @@ pure functions of (code under test, VERIF_SEED, tier).
 import hashlib
 import os
 import sys
+import warnings
 
 VERIF_DIR = os.path.dirname(os.path.dirname(os.path.dirname(os.path.abspath(__file__))))
 REPO_DIR = os.environ.get('VERIF_REPO', '/repo')
@@ -41,6 +42,7 @@ def bootstrap():
     written into the repository (no byte code).
     """
     sys.dont_write_bytecode = True
+    warnings.simplefilter('ignore')     # dateutil warns about unknown zone names on fuzzed dates
     os.environ.setdefault('PYTHONDONTWRITEBYTECODE', '1')
     os.environ[GUARD] = '1'
     if REPO_DIR not in sys.path:
